@@ -174,7 +174,7 @@ PROFILES = {
         'coverage': c08_coverage,
         'warnings': c08_warnings,
         'level': 'exploration',
-        'quick_runs': 4340,
-        'thorough_runs': 153600,
+        'quick_runs': 4342,
+        'thorough_runs': 153602,
     },
 }
